@@ -1,7 +1,7 @@
 (* Front/QuantumCheck.v — executable side of C14: the gate table of MatrixFromOp over Z[1/2][zeta8],
    tabulation of model matrices, exact comparison with the reference *)
 From Coq Require Import List Arith Bool ZArith NArith.
-From BM Require Import Front.Quantum Front.Cyclo8.
+From BM Require Import Front.Quantum Front.QuantumSim Front.Cyclo8.
 Import ListNotations.
 
 Definition M8 := mat c8.
@@ -76,3 +76,32 @@ Definition run_circuit_gen (old : bool) (n : nat) (c : list line) :=
   end.
 
 Definition run_circuit := run_circuit_gen false.
+
+(* exact unitarity of a tabulated matrix: M M* = 1 and M* M = 1 on every pair of basis states *)
+Definition unitaryb (n : nat) (m : M8) : bool :=
+  let d := memo (dagger c8 c8_conj m) in
+  mat_eqb n (mmul c8 c8_0 c8_add c8_mul m d) (ident c8 c8_0 c8_1 n) &&
+  mat_eqb n (mmul c8 c8_0 c8_add c8_mul d m) (ident c8 c8_0 c8_1 n).
+Definition all_gates : list gname :=
+  [GH; GX; GY; GZ; GS; GT; GSX; GCX; GCZ; GSWAP; GISWAP; GDCNOT; GP] ++
+  flat_map (fun k => [GRX k; GRY k; GRZ k; GR k]) (seq 0 8).
+(* the premise of the unitarity theorem, for the gate table as transcribed *)
+Definition gate_table_unitary : bool := forallb (fun g => unitaryb (nq (gate_of g)) (gate_of g)) all_gates.
+(* per circuit: every matrix of the model's compilation is exactly unitary, and the model's software
+   simulation of every basis state is the reference unitary's column *)
+(* run_sim with the state vector tabulated after every matrix (same amplitudes on basis states of n bits) *)
+Definition vmemo (n : nat) (v : vec c8) : vec c8 :=
+  let t := map (fun i => c8_norm (v i)) (all_idx n) in fun i => nth (idx_num i) t c8_0.
+Definition run_sim_memo (n : nat) (ms : list M8) (v : vec c8) : vec c8 :=
+  fold_left (fun s m => vmemo n (mvec c8 c8_0 c8_add c8_mul m s)) ms (vmemo n v).
+Definition circuit_unitary_and_sim (n : nat) (c : list line) : bool * bool :=
+  let ops := map to_op c in
+  match compile c8 c8_0 c8_1 c8_mul n ops with
+  | None => (false, false)
+  | Some ms =>
+      let tm := map memo ms in
+      let u := prod_memo n (map (fun o => memo (embed c8 c8_0 n o)) ops) in
+      (forallb (unitaryb n) tm,
+       forallb (fun j => let out := run_sim_memo n tm (basis c8 c8_0 c8_1 j) in
+                         forallb (fun i => c8_eqb (out i) (ent u i j)) (all_idx n)) (all_idx n))
+  end.
